@@ -43,6 +43,13 @@ Proof. exact arc_file_no_count. Qed.
 Theorem C16_file_no_info : forall m f c, conforms LE f c ->
   label_addrs (content_archive LE c) COUNT <> [] -> label_addrs (content_archive LE c) INFO = [] -> arc_from_bytes m f = Err ENoInfo.
 Proof. exact arc_file_no_info. Qed.
+(* the general transfer to FILES: with Count and Info on exactly one address each, the byte-level reader on a conforming file is
+   the archive-level reader on the file's content - C16_record_without_name, C16_range_outside, C16_offset_overflow below
+   therefore speak about files as well *)
+Theorem C16_file_reads_content : forall m f c cc i, conforms LE f c ->
+  label_addrs (content_archive LE c) COUNT = [cc] -> label_addrs (content_archive LE c) INFO = [i] ->
+  arc_from_bytes m f = arc_from_archive m (content_archive LE c).
+Proof. exact arc_file_reads_content. Qed.
 (* the relation (and so the result) does not depend on the hash order of the label map *)
 Theorem C16_layout_any_hash_order : forall a a' files,
   a_data a' = a_data a -> a_text a' = a_text a -> a_endian a' = a_endian a -> Permutation (a_labels a) (a_labels a') ->
@@ -128,6 +135,21 @@ Example C16_sample_extract :
   arc_from_archive Checked C16_sample_unpadded = Ok [([98], [9;8;7]); ([97], [])] /\
   arc_from_archive Wrapping C16_sample_padded = Ok [([98], [9;8;7])].
 Proof. split; vm_compute; reflexivity. Qed.
+(* an EMPTY file packed as the last body with nothing after it: size 0 and address = size of the data region (24); the range
+   [24, 24) is inside the data, extraction returns the empty entry (a reader that validates the START address as a byte
+   address would wrongly reject it) *)
+Definition C16_sample_empty_last : archive :=
+  {| a_data := [7;0;0;0] ++ [1;0;0;0] ++ [0;0;0;0; 0;0;0;0; 0;0;0;0; 24;0;0;0];
+     a_text := [(8, [101])]; a_ptrs := []; a_labels := [(4, [COUNT]); (8, [INFO])]; a_cstrs := []; a_endian := LE |}.
+Example C16_sample_empty_last_layout : size C16_sample_empty_last = 24 /\ arc_layout C16_sample_empty_last [([101], [])].
+Proof.
+  split; [reflexivity|]. exists 4, 8, 7, [mkEntry [101] 0 0 24]. repeat split; try reflexivity.
+  - intros j en Hj. destruct j as [|j]; cbn in Hj; [|destruct j; discriminate]. inversion Hj; subst. exists 24. vm_compute. repeat split; reflexivity.
+  - repeat constructor.
+  - repeat constructor; cbn; intuition discriminate.
+Qed.
+Example C16_sample_empty_last_extract : forall m, arc_from_archive m C16_sample_empty_last = Ok [([101], [])].
+Proof. intros m. exact (arc_extract m _ _ (proj2 C16_sample_empty_last_layout)). Qed.
 (* a FILE (93 bytes, un-padded, one packed file "b" = 9 8 7): it conforms to the format with an arc-shaped content, and
    the byte-level reader extracts exactly that file *)
 Definition C16_sample_file : bytes :=
